@@ -324,7 +324,7 @@ func runLifecycleCase(p *Program, rep *Report, effFns map[*ssa.Function]string, 
 	}
 	var ds []string
 	for _, e := range exits {
-		ds = append(ds, fmt.Sprintf("err=%d", errOfExit(fn, e)))
+		ds = append(ds, fmt.Sprintf("err=%d kind=%s", errOfExit(fn, e), kindOfExit(in, fn, e)))
 	}
 	rep.OK("LIFECYCLE", name, pos, fmt.Sprintf("%d return class(es) [%s], no nil dereference, no effect", len(exits), strings.Join(ds, ",")))
 }
@@ -337,4 +337,62 @@ func uniq(s []string) []string {
 		}
 	}
 	return out
+}
+
+// kindOfExit names the error kind constant carried by the error an exit returns: the abstract value of the
+// `kind` field of the repository's *Error object the returned interface points to.  "" = no error result,
+// "?" = not determined, "unset" = an *Error without kind (kind is inherited from its cause).
+func kindOfExit(in *Interp, fn *ssa.Function, e Exit) string {
+	res := fn.Signature.Results()
+	if res.Len() == 0 || !errorLike(res.At(res.Len()-1).Type()) {
+		return ""
+	}
+	var v Value = e.ret
+	if t, ok := e.ret.(TupleV); ok {
+		v = t.elems[len(t.elems)-1]
+	}
+	return kindOfValue(in, e.st, v, 0)
+}
+
+func kindOfValue(in *Interp, st *State, v Value, depth int) string {
+	if depth > 4 {
+		return "?"
+	}
+	if iv, ok := v.(IfaceV); ok {
+		if n := namedOf(iv.typ); n != nil && n.Obj().Name() == "ErrKind" {
+			if c, ok := iv.val.(ConstV); ok {
+				return kindConstName(n, c)
+			}
+			return "?"
+		}
+		v = iv.val
+	}
+	pv, ok := v.(PtrV)
+	if !ok || pv.cell == nil {
+		return "?"
+	}
+	stt, ok := pv.cell.typ.Underlying().(*types.Struct)
+	if !ok {
+		return "?"
+	}
+	for i := 0; i < stt.NumFields(); i++ {
+		if stt.Field(i).Name() == "kind" {
+			k := in.loadCell(st, in.kid(pv.cell, "kind", stt.Field(i).Type()))
+			if _, isNil := k.(NilV); isNil {
+				return "unset"
+			}
+			return kindOfValue(in, st, k, depth+1)
+		}
+	}
+	return "?"
+}
+
+func kindConstName(n *types.Named, c ConstV) string {
+	sc := n.Obj().Pkg().Scope()
+	for _, name := range sc.Names() {
+		if k, ok := sc.Lookup(name).(*types.Const); ok && types.Identical(k.Type(), n) && k.Val().String() == c.c.String() {
+			return name
+		}
+	}
+	return "#" + c.c.String()
 }
